@@ -22,7 +22,7 @@ import (
 // ---------------------------------------------------------------------------------------------
 
 type c26Link struct {
-	as int
+	as  int
 	ifc int
 }
 
